@@ -118,6 +118,17 @@ def one(seed):
                 if a + b > ms: h += [a, b]; break
                 heapq.heappush(h, a + b)
             if sorted(h) != sorted(got[smp]): return "MergeMinPlateSmoother(%d): sample %s plate sizes %s, reference %s (from %s)" % (ms, smp, sorted(got[smp]), sorted(h), sorted(sizes)), "MergeMinPlateSmoother._smooth_plates"
+        # the shipped ensemble (merge-min, top-bottom, optimal size, per-sample minimum): the guarantees of its last two stages must hold
+        e_min = rnd.randrange(1, 3)
+        try:
+            out = R.BatchieEnsemblePlateSmoother(min_size=rnd.randrange(1, 6), n_iterations=rnd.randrange(0, 3), min_n_cell_line_plates=e_min).smooth_plates(make_copy(s1), rng)
+            up = unobs_plates(out)
+            if len({sz for _, sz in up.values()}) > 1: return "ensemble smoother leaves unobserved plates of different sizes %s" % sorted(sz for _, sz in up.values()), "BatchieEnsemblePlateSmoother._smooth_plates"
+            if any(len(smp) != 1 for smp, _ in up.values()): return "ensemble smoother leaves a plate mixing samples", "BatchieEnsemblePlateSmoother._smooth_plates"
+            cnt = Counter(next(iter(smp)) for smp, _ in up.values())
+            if any(c < e_min for c in cnt.values()): return "ensemble smoother leaves a sample with %s unobserved plates (< %d)" % (dict(cnt), e_min), "BatchieEnsemblePlateSmoother._smooth_plates"
+        except ValueError:
+            pass
         it = rnd.randrange(1, 4)
         out = R.MergeTopBottomPlateSmoother(it).smooth_plates(make_copy(s1), rng)
         got = Counter()
